@@ -8,15 +8,13 @@ blank) is tokenized to the leaves `L` (symbol, text).  `expectLeaves`: the token
 (as leaves) a list of rows with given indentation levels and leaves must tokenize to —
 Indent / Dedent / end-of-line tokens determined by the block structure only.
 -/
+import Emboss.Spec.FmtRetok
 import Emboss.Lemmas.TokBlankJoin
 import Emboss.Lemmas.TokSplit
 import Emboss.Lemmas.FmtIdem
+import Emboss.Lemmas.FmtBlank
 namespace Emboss.FmtTok
 open Emboss.Tok Emboss.Generated
-
-abbrev Leaf := String × List Char
-
-def leafOf (t : Token) : Leaf := (t.sym, t.text)
 
 theorem map_leafOf_shift (k : Nat) (ts : List Token) :
     (ts.map (Token.shift k)).map leafOf = ts.map leafOf := by
@@ -81,20 +79,10 @@ theorem leadingWs_indented (n : Nat) {s : List Char} (hne : s ≠ [])
     simp only [leadingWs, List.cons_append, List.takeWhile_cons, space_blank, if_true] at ih ⊢
     rw [ih]
 
-/-- The text of a rendered line: nothing for an empty content, else the indentation and
-the content. -/
-def lineText (iw j : Nat) (s : List Char) : List Char :=
-  if s = [] then [] else Fmt.spaces (iw * j) ++ s
-
 /-! ### The indentation stack as a list of levels -/
 
 def stackOf (iw top : Nat) (below : List Nat) : IStack :=
   ⟨Fmt.spaces (iw * top), below.map (fun j => Fmt.spaces (iw * j))⟩
-
-/-- `dedentTo` on levels. -/
-def dedentLv (j : Nat) : List Nat → Nat → Option (Nat × Nat × List Nat)
-  | [], _ => none
-  | t :: below, k => if j = t then some (k, t, below) else dedentLv j below (k + 1)
 
 theorem spaces_inj {a b : Nat} : Fmt.spaces a = Fmt.spaces b ↔ a = b := by
   constructor
@@ -136,8 +124,6 @@ theorem spaces_prefix {a b : Nat} : (Fmt.spaces a).isPrefixOf (Fmt.spaces b) = d
       have := hp.length_le
       simp only [Fmt.spaces, List.length_replicate] at this
       exact absurd this h
-
-def allComment (L : List Leaf) : Bool := L.all (fun l => l.1 == "Comment")
 
 theorem all_comment_leaves (ts : List Token) :
     ts.all (fun t => t.sym == "Comment") = allComment (ts.map leafOf) := by
@@ -203,29 +189,6 @@ theorem lineStep_row (iw : Nat) (hiw : 0 < iw) (ln j top : Nat) (below : List Na
           | some r => rfl
 
 /-! ### A list of rows -/
-
-def nlLeaf : Leaf := (nlSym, ['\n'])
-def dedentLeaf : Leaf := ("Dedent", [])
-
-/-- The leaves of the token sequence of a rendered file: `rs` lists, per row, the
-indentation level and the leaves of the content; `top :: below` are the open indentation
-levels.  Rows without tokens or with comments only take no part in indentation; a deeper
-row opens a level (`Indent` carrying the added blanks), a shallower one closes levels down
-to an open one (`none`: "Bad indentation" — the level was never opened); every row ends
-with an end-of-line token; at the end every open level is closed. -/
-def expectLeaves (iw : Nat) : Nat → List Nat → List (Nat × List Leaf) → Option (List Leaf)
-  | _, below, [] => some (List.replicate below.length dedentLeaf)
-  | top, below, (j, L) :: rest =>
-    if allComment L then (expectLeaves iw top below rest).map (fun x => L ++ nlLeaf :: x)
-    else if j = top then (expectLeaves iw top below rest).map (fun x => L ++ nlLeaf :: x)
-    else if top < j then
-      (expectLeaves iw j (top :: below) rest).map
-        (fun x => ("Indent", Fmt.spaces (iw * (j - top))) :: (L ++ nlLeaf :: x))
-    else
-      match dedentLv j below 1 with
-      | none => none
-      | some (k, t', b') =>
-        (expectLeaves iw t' b' rest).map (fun x => List.replicate k dedentLeaf ++ (L ++ nlLeaf :: x))
 
 theorem prepend_ok (em : List Token) (r : TokRes) (toks : List Token) (h : r = .ok toks) :
     r.prepend em = .ok (em ++ toks) := by subst h; rfl
@@ -345,9 +308,6 @@ theorem splitLines_lines : ∀ (lines : List (List Char)),
     exact ih (fun l' hl' => h l' (by simp [hl']))
 
 /-! ### `_render_rows_to_text` -/
-
-/-- The content of a row: its columns, without trailing blanks. -/
-def rowText (r : Fmt.Row) : List Char := Fmt.rstrip r.columns.flatten
 
 theorem dropWhile_append_ite {α : Type} (p : α → Bool) : ∀ (x y : List α),
     (x ++ y).dropWhile p = if x.dropWhile p = [] then y.dropWhile p else x.dropWhile p ++ y := by
@@ -484,12 +444,6 @@ theorem LineToks.of_eval {s : List Char} {ts : List Token}
     · rw [tokLine_ln, ht]; rfl
     · simp only [List.map_map]; rfl
 
-/-- The leaves the tokenizer model cuts `s` into (`none`: it fails). -/
-def evalLeaves (s : List Char) : Option (List Leaf) :=
-  match tokLine tokTable.pats 0 s.length s 0 with
-  | .ok ts => some (ts.map leafOf)
-  | _ => none
-
 theorem LineToks.of_evalLeaves {s : List Char} {L : List Leaf}
     (hh : ∀ y, s.head? = some y → isSpaceChar y = false)
     (hl : ∀ y, s.getLast? = some y → isSpaceChar y = false)
@@ -504,17 +458,119 @@ theorem LineToks.of_evalLeaves {s : List Char} {L : List Leaf}
 
 /-! ### The rows `_module` renders -/
 
-/-- The rows `_module` hands to `_render_rows_to_text`. -/
-def moduleRows (c d i a : List Fmt.Row) (ty : List (List Fmt.Row)) : List Fmt.Row :=
-  Fmt.addBlankRowsOnDedent (Fmt.indentBlanksAndComments
-    (Fmt.intersperse [{ name := .topTypeSeparator }, { name := .topTypeSeparator }]
-      (Fmt.intersperse [{ name := .sectionBreak }] [Fmt.stripEmptyRows c, d, i, a] :: ty)))
-
 theorem hModule_eq (iw : Nat) (c d i a : List Fmt.Row) (ty : List (List Fmt.Row)) :
     Fmt.Handler.run iw .module [.rows c, .rows d, .rows i, .rows a, .sections ty] =
       (Fmt.renderRows iw (moduleRows c d i a ty)).map Fmt.Fmt.str := by
   simp only [Fmt.Handler.run, Fmt.hModule, Fmt.asRows, Fmt.asSections, Option.pure_def,
     Option.bind_eq_bind, Option.bind_some, moduleRows]
   cases Fmt.renderRows iw _ <;> rfl
+
+/-! ### The evaluated hypotheses (`retokExpect`) are sound -/
+
+theorem headOK_spec {s : List Char} (h : headOK s = true) :
+    ∀ y, s.head? = some y → isSpaceChar y = false := by
+  intro y hy
+  simp only [headOK, hy] at h
+  simpa using h
+
+theorem lastOK_spec {s : List Char} (h : lastOK s = true) :
+    ∀ y, s.getLast? = some y → isSpaceChar y = false := by
+  intro y hy
+  simp only [lastOK, hy] at h
+  simpa using h
+
+theorem rowCheck_sound {r : Fmt.Row} {x : Nat × List Leaf} (h : rowCheck r = some x) :
+    r.columns.length < 2 ∧ x.1 = r.indent ∧ LineToks (rowText r) x.2 := by
+  simp only [rowCheck] at h
+  split at h
+  · rename_i hlen
+    split at h
+    · rename_i hc
+      simp only [Bool.and_eq_true] at hc
+      cases he : evalLeaves (rowText r) with
+      | none => simp [he] at h
+      | some L =>
+        simp only [he, Option.map_some, Option.some.injEq] at h
+        subst h
+        exact ⟨hlen, rfl, LineToks.of_evalLeaves (headOK_spec hc.1.1) (lastOK_spec hc.1.2) hc.2 he⟩
+    · cases h
+  · cases h
+
+theorem rowsCheck_sound : ∀ (rows : List Fmt.Row) (xs : List (Nat × List Leaf)), rowsCheck rows = some xs →
+    ∃ pairs : List (Fmt.Row × List Leaf), pairs.map Prod.fst = rows ∧
+      (∀ x ∈ pairs, x.1.columns.length < 2 ∧ LineToks (rowText x.1) x.2) ∧
+      pairs.map (fun x => (x.1.indent, x.2)) = xs := by
+  intro rows
+  induction rows with
+  | nil =>
+    intro xs h
+    simp only [rowsCheck, Option.some.injEq] at h
+    subst h
+    exact ⟨[], rfl, (by intro x hx; cases hx), rfl⟩
+  | cons r rest ih =>
+    intro xs h
+    simp only [rowsCheck] at h
+    split at h
+    · rename_i x xr hx hxr
+      cases h
+      obtain ⟨pairs, hp1, hp2, hp3⟩ := ih xr hxr
+      obtain ⟨h1, h2, h3⟩ := rowCheck_sound hx
+      refine ⟨(r, x.2) :: pairs, by simp [hp1], ?_, ?_⟩
+      · intro y hy
+        rcases List.mem_cons.mp hy with rfl | hy
+        · exact ⟨h1, h3⟩
+        · exact hp2 y hy
+      · simp only [List.map_cons, hp3, ← h2]
+    · cases h
+
+/-- Whenever `retokExpect` answers `some E`, `_module` returns a text that `tokenize` accepts
+with exactly the leaves `E`. -/
+theorem retokExpect_sound (iw : Nat) (hiw : 0 < iw) (c d i a : List Fmt.Row) (ty : List (List Fmt.Row))
+    (E : List Leaf) (h : retokExpect iw c d i a ty = some E) :
+    ∃ text toks, Fmt.Handler.run iw .module [.rows c, .rows d, .rows i, .rows a, .sections ty] =
+        some (.str text) ∧
+      tokenize tokTable.pats text = .ok toks ∧ toks.map leafOf = E := by
+  simp only [retokExpect] at h
+  split at h
+  · rename_i xs hxs
+    obtain ⟨pairs, hp1, hp2, hp3⟩ := rowsCheck_sound _ xs hxs
+    obtain ⟨text, toks, h1, h2, h3⟩ := tokenize_renderRows iw hiw pairs hp2 E (by rw [hp3]; exact h)
+    refine ⟨text, toks, ?_, h2, h3⟩
+    rw [hModule_eq, ← hp1, h1]; rfl
+  · cases h
+
+theorem hModule_asRows (iw : Nat) {vc vd vi va vty : Fmt.Fmt} {c d i a : List Fmt.Row} {ty : List (List Fmt.Row)}
+    (h1 : Fmt.asRows vc = some c) (h2 : Fmt.asRows vd = some d) (h3 : Fmt.asRows vi = some i)
+    (h4 : Fmt.asRows va = some a) (h5 : Fmt.asSections vty = some ty) :
+    Fmt.Handler.run iw .module [vc, vd, vi, va, vty] =
+      Fmt.Handler.run iw .module [.rows c, .rows d, .rows i, .rows a, .sections ty] := by
+  have e (l : List Fmt.Row) : Fmt.asRows (.rows l) = some l := rfl
+  have e' : Fmt.asSections (.sections ty) = some ty := rfl
+  simp only [Fmt.Handler.run, Fmt.hModule, h1, h2, h3, h4, h5, e, e']
+
+/-- **`retokTree` is a sound certificate**: whenever it answers `some E` for a parse tree, the
+model formats the tree to a text that the tokenizer model accepts with exactly the leaves `E`. -/
+theorem retokTree_sound (iw : Nat) (hiw : 0 < iw) (t : Fmt.Tree) (E : List Leaf)
+    (h : retokTree iw t = some E) :
+    ∃ text toks, Fmt.formatTree iw t = some (.str text) ∧
+      tokenize tokTable.pats text = .ok toks ∧ toks.map leafOf = E := by
+  cases t with
+  | tok s x => simp [retokTree] at h
+  | node p cs =>
+    simp only [retokTree] at h
+    split at h
+    · rename_i hp
+      split at h
+      · rename_i vc vd vi va vty hargs
+        split at h
+        · rename_i c d i a ty h1 h2 h3 h4 h5
+          obtain ⟨text, toks, hm, h2', h3'⟩ := retokExpect_sound iw hiw c d i a ty E h
+          refine ⟨text, toks, ?_, h2', h3'⟩
+          rw [Fmt.formatTree, Fmt.handlerAt_fold hp, hargs, Option.bind_some,
+            hModule_asRows iw h1 h2 h3 h4 h5]
+          exact hm
+        · cases h
+      · cases h
+    · cases h
 
 end Emboss.FmtTok
